@@ -31,6 +31,7 @@ def rules(model: Model, tier: str) -> List[RuleResult]:
     Rj = RuleResult(PROP, "C20-R", "rejection dominance: length / shape / numel checks raise before any refill", min_instances=3)
     I = RuleResult(PROP, "C20-I", "identity-based de-duplication and inverse map", min_instances=3)
     _traversal(model, T)
+    _cache_separation(model, F)
     _fresh(model, F)
     _reject(model, Rj)
     _identity(model, I)
@@ -182,6 +183,37 @@ def _traversal(model: Model, T: RuleResult):
         T.ok(pu.fq, "refill consumes the list from the front (pop(0)) - same order as extraction appends")
     else:
         T.bad(pu, pu.node, "refill must consume the tensors from the front of the list (pop(0))")
+
+
+def _cache_separation(model: Model, F: RuleResult):
+    """The Packer keeps two sets of cached shapes / sizes - for the unique listing (`self._unique_*`) and for the full one - and the
+    construct_* methods pick one by their `unique` argument.  Every store into a cache of one flavour must happen only on the path of
+    that flavour (under `unique` resp. `not unique`): a store on the common path lets one listing overwrite the other's record, after
+    which a legal list of the other flavour is rejected (or an illegal one accepted) depending on the history of calls."""
+    from ..model import effective_conditions
+    cls = model.cls(PACK, "Packer")
+    n = 0
+    for m in cls.methods.values():
+        if "unique" not in m.all_params() or m.name.startswith("construct"):
+            continue
+        me = m.params()[0]
+        for st in own_nodes(m.node):
+            if not isinstance(st, ast.Assign):
+                continue
+            for t in st.targets:
+                for e in (t.elts if isinstance(t, ast.Tuple) else [t]):
+                    if isinstance(e, ast.Attribute) and isinstance(e.value, ast.Name) and e.value.id == me and ("tensor_shapes" in e.attr or "tensor_numel" in e.attr):
+                        want = e.attr.startswith("_unique")
+                        conds = effective_conditions(st)
+                        n += 1
+                        if ("unique", want) in conds:
+                            F.ok(m.fq, "self.%s is recorded only on the %s path" % (e.attr, "unique" if want else "non-unique"))
+                        else:
+                            F.bad(m, st, "self.%s (the record of the %s listing) is written on a path that the %s listing also takes: one listing overwrites the "
+                                  "other's cached shapes, and construct_*(unique=%s) then judges its input against the wrong record" %
+                                  (e.attr, "unique" if want else "full", "full" if want else "unique", want))
+    if n == 0:
+        F.undecided(cls.fq, cls.node, "cannot find the stores of the cached shapes / sizes of the Packer")
 
 
 def _fresh(model: Model, F: RuleResult):
